@@ -1,5 +1,5 @@
 (** C04 - Sender obeys flow control from any peer and always terminates (structural part). *)
-From IsoTp Require Import Base.Prelude Model.Micro Spec.ConfigSpec Proofs.Inv Proofs.FsmProps Proofs.PacingP Proofs.BlockP Proofs.ProgressP.
+From IsoTp Require Import Base.Prelude Model.Micro Spec.ConfigSpec Proofs.Inv Proofs.FsmProps Proofs.PacingP Proofs.BlockP Proofs.ProgressP Proofs.TokTxP Proofs.MailboxP.
 
 (** No wedge: in every reachable state an active transmitter is waiting with a running N_Bs
     deadline, or pacing Consecutive Frames with a running STmin timer and a known block size,
@@ -37,6 +37,26 @@ Theorem C04_wait_ok : forall c s fc, p_wftmax (c_p c) <> 0 -> fc_status fc = FS_
   wft_counter s' = wft_counter s + 1 /\ t_start (timer_rx_fc s') = Some (now s).
 Proof. exact wait_accepted. Qed.
 
+(** A ContinueToSend handled while the sender waits and before the deadline is obeyed: no error, the sender leaves the wait with the
+    granted block size and a fresh block count; request, queue, sequence number untouched. *)
+Theorem C04_cts_obeyed : forall c s fc, tx_state s = TxWaitFC -> fc_status fc = FS_CTS ->
+  timer_timed_out (now s) (timer_rx_fc s) = false ->
+  exists s2, handle_fc_active c s fc = (s2, []) /\ tx_state s2 = TxTransmitCF /\ remote_bs s2 = Some (fc_bs fc) /\
+    tx_block_counter s2 = 0 /\ active s2 = active s /\ tx_queue s2 = tx_queue s /\ tx_standby s2 = tx_standby s /\
+    tx_seqnum s2 = tx_seqnum s /\ last_fc s2 = last_fc s /\ timer_timed_out (now s2) (timer_rx_fc s2) = false.
+Proof. exact handle_cts. Qed.
+
+(** Full duplex hand-over: a transmit pass that first owes the peer a Flow Control of its own emits exactly that frame and returns;
+    the received Flow Control waiting in the mailbox, and everything else the sender holds (state, request, queue, counters, timers),
+    is left for the pass that follows. *)
+Theorem C04_own_flow_control_first : forall c s0,
+  pending_fc s0 = true -> p_listen (c_p c) = false -> tr_crash (process_tx c s0) = false ->
+  sender_part (tr_s (process_tx c s0)) = sender_part s0 /\
+  pending_fc (tr_s (process_tx c s0)) = false /\
+  tr_evs (process_tx c s0) = [] /\
+  exists st m, pending_fc_status s0 = Some st /\ make_flow_control c st = Some m /\ tr_msg (process_tx c s0) = Some m.
+Proof. exact pending_pass_keeps_sender. Qed.
+
 (** The Wait budget belongs to the message: whenever no First Frame is awaiting its Flow Control and no block is being transmitted
     (idle, or the first frame held by the rate limiter) the count of accepted Wait frames is zero, so the abort of C04_wait_max needs
     more than wftmax Wait frames accepted since the First Frame of the very message that is abandoned. *)
@@ -63,7 +83,7 @@ Proof. exact cf_respects_blocksize. Qed.
 Theorem C04_block_pass : forall c s g, B g s -> within_grant c s g /\ B (gpass c s g) (tr_s (process_tx c s)).
 Proof. exact tx_pass_block. Qed.
 
-Theorem C04_block_run : forall c t0 ms, granted c (init_layer c t0) 0 ms.
+Theorem C04_block_run : forall c t0 ms, BlockP.granted c (init_layer c t0) 0 ms.
 Proof. exact granted_from_init. Qed.
 
 (** Termination.  C04_nowedge: a transmitter that is not idle always has a deadline or pacing timer
@@ -94,6 +114,8 @@ Print Assumptions C04_wait0.
 Print Assumptions C04_wait_max.
 Print Assumptions C04_wait_ok.
 Print Assumptions C04_wait_count_per_message.
+Print Assumptions C04_cts_obeyed.
+Print Assumptions C04_own_flow_control_first.
 Print Assumptions C04_block.
 Print Assumptions C04_block_pass.
 Print Assumptions C04_block_run.
